@@ -90,7 +90,14 @@ fn main() {
         let f2 = f.clone();
         let r = panic::catch_unwind(move || constants(&f2));
         let map = match r {
-            Err(_) => { panics += 1; if panics <= 3 { println!("PANIC on {:?} edges {:?}", blocks, edges); } continue; }
+            Err(_) => {
+                panics += 1;
+                if panics <= 3 {
+                    println!("PANIC on {:?} edges {:?}", blocks, edges);
+                    println!("{{\"witness\":true,\"op\":\"constants\",\"blocks\":\"{:?}\",\"edges\":\"{:?}\",\"got\":\"panic\",\"expected\":\"Ok or Err (completion)\"}}", blocks, edges);
+                }
+                continue;
+            }
             Ok(Err(e)) => { *errs.entry(format!("{}", e).chars().take(40).collect()).or_insert(0) += 1; continue; }
             Ok(Ok(m)) => m,
         };
@@ -116,6 +123,7 @@ fn main() {
                                         unsound += 1;
                                         if unsound <= 5 {
                                             println!("UNSOUND #{}: blocks {:?} edges {:?}: at {} the analysis reports {} = {} but an execution has {}", it, blocks, edges, loc, NAMES[v], k, store[v]);
+                                            println!("{{\"witness\":true,\"op\":\"constants\",\"blocks\":\"{:?}\",\"edges\":\"{:?}\",\"location\":\"{}\",\"scalar\":\"{}\",\"got\":\"{}\",\"expected\":\"{}\"}}", blocks, edges, loc, NAMES[v], k, store[v]);
                                         }
                                     }
                                 }
@@ -147,4 +155,6 @@ fn main() {
     }
     println!("functions: {}  Ok: {}  panics: {}  errors: {:?}", n, ok, panics, errs);
     println!("constant checks against concrete executions: {}  contradictions: {}", checks, unsound);
+    let nerr: u64 = errs.values().sum();
+    println!("{{\"summary\":true,\"functions\":{},\"ok\":{},\"panics\":{},\"errors\":{},\"evaluations\":{},\"disagreements\":{}}}", n, ok, panics, nerr, checks, unsound + panics);
 }
